@@ -344,7 +344,9 @@ func OpenFile(name string, flag int, perm os.FileMode) (*File, error) {
 			if crashAfter {
 				crash()
 			}
-			if e == nil && flag&os.O_TRUNC != 0 {
+			if e == nil {
+				// created or truncated: the file's times are simulated times from its first instant (a file created
+				// and left empty used to keep the real wall-clock mtime, decades after every simulated one)
 				stamp(name)
 			}
 			return wrap(f, name), e
@@ -387,6 +389,7 @@ func CreateTemp(dir, pattern string) (*File, error) {
 	if e != nil {
 		return nil, e
 	}
+	stamp(f.Name())
 	return wrap(f, f.Name()), nil
 }
 
